@@ -28,7 +28,7 @@ CONSTANTS Radices,      \* set of radices for the text / value classes
 Dpw == <<64, 40, 32, 27, 24, 22, 21, 20, 19, 18, 17, 17, 16, 16, 16, 15, 15, 15, 14, 14, 14, 14, 13, 13, 13, 13, 13, 13,
          13, 12, 12, 12, 12, 12, 12>>
 RadSeq == SelectSeq([t \in 1..35 |-> t + 1], LAMBDA r : r \in Radices)
-Classes == {"layout", "text", "value", "grammar", "bytes", "chunks"}
+Classes == {"layout", "text", "value", "grammar", "bytes", "chunks", "sweep", "biglayout"}
 
 \* ------------------------------------------------------------------ layout
 LVals == << I(0, <<>>), I(0, <<7>>), I(1, <<7>>), I(0, <<184, 11>>), I(1, <<184, 11>>),
@@ -178,13 +178,33 @@ ChunksCase(i, j, k) ==
        [op |-> "from_chunks", cb |-> cb,
         chunks |-> [t \in 1..j |-> I(0, Mag(IF t % 2 = 0 THEN "dense" ELSE "ones", 1 + (t % 2), Seed + t))]]
 
+\* ------------------------------------------------------------------ byte sweep
+\* every ASCII byte value inserted at the start / in the middle / at the end of a digit string: exactly the digits of the
+\* radix (either case) and the underscore may be accepted
+SweepRadix == <<2, 10, 16, 36>>
+SweepCase(i, j, k) ==
+  LET r == SweepRadix[i]
+      body == DigitChars(<<1, 0, r - 1, 1>>, FALSE)
+      pos == CASE j = 1 -> 0 [] j = 2 -> 2 [] j = 3 -> 4
+  IN [op |-> "parse", ty |-> IF k % 2 = 0 THEN "I" ELSE "U", fn |-> "radix", radix |-> r, text |-> Ins(body, pos, <<k - 1>>), chain |-> ""]
+
+\* ------------------------------------------------------------------ layout of very long numbers
+\* padding needs the digit COUNT of numbers printed by the divide-and-conquer converter (hundreds to thousands of digits)
+BigWords == <<32, 45, 68, 104>>
+BigLayoutCase(i, j, k) ==
+  LET v == I(IF k % 2 = 0 THEN 1 ELSE 0, Mag(IF j = 1 THEN "dense" ELSE "pow2p1", BigWords[i], Seed + i))
+      al == Aligns[1 + ((k - 1) % 3) + 1]
+  IN [op |-> "fmt", ty |-> IF v.s = 1 THEN "I" ELSE "U", v |-> v, kind |-> "display", radix |-> 10,
+      w |-> 20 * BigWords[i] + 40, fill |-> <<42>>, align |-> al, plus |-> k > 3, alt |-> FALSE, zero |-> k = 6, chain |-> ""]
+
 \* ------------------------------------------------------------------ enumeration
 NI(c) == CASE c = "layout" -> Len(LVals) [] c = "text" -> Len(RadSeq) [] c = "value" -> Len(RadSeq)
            [] c = "grammar" -> Len(GRadix) [] c = "bytes" -> 25 [] c = "chunks" -> Len(ChunkBits)
+           [] c = "sweep" -> Len(SweepRadix) [] c = "biglayout" -> Len(BigWords)
 NJ(c) == CASE c = "layout" -> Len(LKinds) [] c = "text" -> NLen [] c = "value" -> Len(WordClasses)
-           [] c = "grammar" -> Len(GFns) [] c = "bytes" -> 5 [] c = "chunks" -> 5
+           [] c = "grammar" -> Len(GFns) [] c = "bytes" -> 5 [] c = "chunks" -> 5 [] c = "sweep" -> 3 [] c = "biglayout" -> 2
 NK(c) == CASE c = "layout" -> 32 * Len(LWidths) [] c = "text" -> 4 [] c = "value" -> IF Thorough THEN 4 ELSE 3
-           [] c = "grammar" -> NMut * 6 [] c = "bytes" -> 8 [] c = "chunks" -> 4
+           [] c = "grammar" -> NMut * 6 [] c = "bytes" -> 8 [] c = "chunks" -> 4 [] c = "sweep" -> 128 [] c = "biglayout" -> 6
 
 VARIABLES phase, cls, i, j, k
 vars == <<phase, cls, i, j, k>>
@@ -202,5 +222,7 @@ Case ==
     [] cls = "grammar" -> GrammarCase(i, j, k)
     [] cls = "bytes" -> BytesCase(i, j, k)
     [] cls = "chunks" -> ChunksCase(i, j, k)
+    [] cls = "sweep" -> SweepCase(i, j, k)
+    [] cls = "biglayout" -> BigLayoutCase(i, j, k)
 Emit == phase = "done" => PrintT(<<"GEN", ToJson(Case @@ [class |-> cls])>>)
 =============================================================================
